@@ -49,6 +49,8 @@ def run(c):
     run_cfg(c, 'Sweeper_ce1.cfg', 1, 20000 if thorough else 3000, 14)
     res = vlib.run_harness(['sweepfree', c.tier], timeout=1500)
     vlib.absorb(c, res)
+    # values that are not well-formed headers among expired markers: refused with an error, never removed
+    vlib.absorb(c, vlib.run_harness(['sweepmalformed', 'C13'], timeout=300))
     c.assumptions += ['markers are classified old/young by a wide margin around the cut-off (2x and 0.5x the retention); the exact boundary is covered by the model only',
                       'LMDB cursor semantics of SetRange/Next as modelled']
     c.extra['rule'] = 'simulated Sweeper behaviours (initial content x application writes between slices) replayed on the real sweeper'
